@@ -3,7 +3,7 @@
 use super::Service;
 use crate::conn_id::ConnectionId;
 use crate::verif::env::*;
-use crate::verif_collections::{HashMap, HashSet, CAP};
+use crate::verif_collections::{at, at_mut, HashMap, HashSet, CAP};
 use aldrin_core::{ObjectCookie, ServiceCookie};
 
 // ---- accessors for the handler lemmas (fields are private to this module) ----
@@ -74,8 +74,8 @@ pub(crate) fn any_service(cookie: ServiceCookie, obj: ObjectCookie) -> Service {
             kani::assume(!subs.is_empty());
             let e = i as u32; // distinct keys by construction, slots arbitrary below
             let slot: usize = kani::any();
-            kani::assume(slot < CAP && s.events.slots[slot].is_none());
-            s.events.slots[slot] = Some((e, subs));
+            kani::assume(slot < CAP && at(&s.events.slots, slot).is_none());
+            *at_mut(&mut s.events.slots, slot) = Some((e, subs));
         }
         i += 1;
     }
@@ -190,12 +190,16 @@ mod harnesses {
 
     /// `subscribed_conn_ids`: every connection subscribed to an event or to the service, once.
     #[kani::proof]
-    #[kani::unwind(5)]
+    #[kani::unwind(8)]
     fn q_c04_service_subscribed_conn_ids() {
         let s = any_service(svc_cookie(1), obj_cookie(1));
         let mut count = [0u8; NCONN];
         for c in s.subscribed_conn_ids() {
-            count[c.0 as usize] += 1;
+            match c.0 {
+                0 => count[0] += 1,
+                1 => count[1] += 1,
+                _ => count[2] += 1,
+            }
         }
         let mut t = 0u8;
         while (t as usize) < NCONN {
@@ -205,4 +209,7 @@ mod harnesses {
         }
         std::mem::forget(s);
     }
+
+    #[cfg(verif_replay)]
+    include!("/verif/.cache/replay/broker__service__verif__harnesses.rs");
 }
